@@ -79,9 +79,31 @@ def extract(repo):
     return out
 
 
+GLOBAL_STATE = re.compile(r"thread_local!|\bstatic\s+(?:mut\s+)?[A-Z_][A-Z0-9_]*\s*:|\bLazyLock\b|\bOnceLock\b|\bOnceCell\b|\blazy_static!")
+SRC_DIRS = ["src", "bindings/c/src"]
+
+
+def global_state(repo):
+    """{file: [declarations of process- or thread-wide state]}: the models are functions of their arguments (and, for the
+    generator, of its own cache); any other state that survives a call is state the models do not have"""
+    out = {}
+    for d in SRC_DIRS:
+        for f in sorted((Path(repo) / d).rglob("*.rs")):
+            text = strip(f.read_text(errors="replace"))
+            cut = text.find("#[cfg(test)]")
+            if cut >= 0:
+                text = text[:cut]
+            hits = sorted(re.sub(r"\s+", " ", m.group(0)) for m in GLOBAL_STATE.finditer(text))
+            if hits:
+                out[str(f.relative_to(repo))] = hits
+    return out
+
+
 def lock(repo):
-    LOCK.write_text(json.dumps(extract(repo), indent=1) + "\n")
-    print("locked", len(extract(repo)), "types")
+    d = extract(repo)
+    d["__global_state__"] = global_state(repo)
+    LOCK.write_text(json.dumps(d, indent=1) + "\n")
+    print("locked", len(d) - 1, "types;", "global state:", d["__global_state__"])
 
 
 def differences(names, repo):
@@ -90,6 +112,11 @@ def differences(names, repo):
     want = json.loads(LOCK.read_text())
     got = extract(repo)
     out = []
+    gs_want, gs_got = want.get("__global_state__"), global_state(repo)
+    if gs_want is not None and gs_want != gs_got:
+        for f in sorted(set(gs_want) | set(gs_got)):
+            if gs_want.get(f) != gs_got.get(f):
+                out.append(f"process-/thread-wide state in {f}: {gs_got.get(f, [])} (was {gs_want.get(f, [])})")
     for n in names:
         if want.get(n) != got.get(n):
             w, g = set(want.get(n) or []), set(got.get(n) or [])
